@@ -994,12 +994,12 @@ package storage
 //@   requires slotsOK(n) && !n.isLeaf && cnt(n) <= maxInternal
 //@   ensures[total; C12] err == nil && result0 != nil && fresh(result0)
 //@   ensures[onepage; C12] bufr(result0) == 0 && bufw(result0) == 4096
-//@   ensures[image; C12] intIs(n) ==> intImage(result0, 0)
+//@   ensures[image; C12] old(intIs(n)) ==> intImage(result0, 0)
 //@   loop 1 invariant 0 <= i && i <= cnt(n) && bufr(buf) == 0 && bufw(buf) == 29 + 2*i
-//@   loop 1 invariant[hdr] intIs(n) ==> intHdr(buf,0) && intOffs(buf,0,i)
+//@   loop 1 invariant[hdr] old(intIs(n)) ==> intHdr(buf,0) && intOffs(buf,0,i)
 //@   loop 2 invariant 0 <= i && i <= cellCount && cellCount == cnt(n) && bufr(bufFooter) == 0 && bufw(bufFooter) == 12*i && bufFooter != buf
 //@   loop 2 invariant bufr(buf) == 0 && bufw(buf) == 29 + 2*cnt(n)
-//@   loop 2 invariant[hdr] intIs(n) ==> intHdr(buf,0) && intOffs(buf,0,cnt(n)) && intCells(bufFooter, 0, i)
+//@   loop 2 invariant[hdr] old(intIs(n)) ==> intHdr(buf,0) && intOffs(buf,0,cnt(n)) && intCells(bufFooter, 0, i)
 
 //@ func (n *btreeNode) decodeInternal(buf *bytes.Buffer) error
 //@   props C12
@@ -1018,3 +1018,73 @@ package storage
 //@   loop 2 invariant forall j int :: 0 <= j && j < cellCount ==> n.offsets[j] == aiOff(j)
 //@   loop 2 invariant forall j int :: 0 <= j && j < i ==> allocated(n.internalCells[aiOff(j)]) && n.internalCells[aiOff(j)].key == aiKey(j) && n.internalCells[aiOff(j)].fileOffset == aiChild(j)
 //@   loop 2 invariant n.fileOffset == aiFileOffset() && n.lastLSN == aiLSN() && n.rightOffset == aiRight()
+
+// Leaf page: header(39) = kind(1) fileOffset(8) lastLSN(8) hasLSib(1) hasRSib(1) lSib(8) rSib(8) count(4); offsets(2 each);
+// freeSize(2); gap; cells in slot order at the end of the page: key(4) deleted(1) valueSize(4) value(valueSize).
+// alPos(i) is the position of the i-th cell relative to the first one (prefix sum of the cell sizes).
+//@ spec abstract alFileOffset() uint64
+//@ spec abstract alLSN() uint64
+//@ spec abstract alHasL() bool
+//@ spec abstract alHasR() bool
+//@ spec abstract alLSib() uint64
+//@ spec abstract alRSib() uint64
+//@ spec abstract alCnt() int
+//@ spec abstract alOff(i int) uint16
+//@ spec abstract alKey(i int) uint32
+//@ spec abstract alDel(i int) bool
+//@ spec abstract alSize(i int) int
+//@ spec abstract alVal(i int, k int) byte
+//@ spec abstract alPos(i int) int
+//@ axiom alPos0: alPos(0) == 0
+//@ axiom alPosS: forall i int :: 0 <= i ==> alPos(i+1) == alPos(i) + 9 + alSize(i)
+//@ axiom alSizeNN: forall i int :: alSize(i) >= 0
+//@ axiom alPosMono: forall i, j int :: 0 <= i && i < j ==> alPos(i) + 9 + alSize(i) <= alPos(j)
+//@ spec func alFree() int { 4096 - 41 - 2*alCnt() - alPos(alCnt()) }
+//@ spec pred alWF() { 0 <= alCnt() && alCnt() <= maxLeaf &&
+//@        (forall i int :: 0 <= i && i < alCnt() ==> alOff(i) < alCnt() && alSize(i) <= maxValue) &&
+//@        (forall i, j int :: 0 <= i && i < j && j < alCnt() ==> alOff(i) != alOff(j)) }
+//@ spec pred leafIs(n *btreeNode) { n.fileOffset == alFileOffset() && n.lastLSN == alLSN() && n.hasLSib == alHasL() && n.hasRSib == alHasR() &&
+//@        n.lSibFileOffset == alLSib() && n.rSibFileOffset == alRSib() && cnt(n) == alCnt() &&
+//@        (forall i int :: 0 <= i && i < alCnt() ==> n.offsets[i] == alOff(i) && lc(n,i).key == alKey(i) && lc(n,i).deleted == alDel(i) &&
+//@            lc(n,i).valueSize == alSize(i) && len(lc(n,i).valueBytes) == alSize(i) &&
+//@            (forall k int :: 0 <= k && k < alSize(i) ==> lc(n,i).valueBytes[k] == alVal(i,k))) }
+//@ spec pred leafHdr(b *bytes.Buffer, p int) { bufdata(b,p) == 1 && le64(b,p+1) == alFileOffset() && le64(b,p+9) == alLSN() &&
+//@        bufdata(b,p+17) == (alHasL() ? 1 : 0) && bufdata(b,p+18) == (alHasR() ? 1 : 0) && le64(b,p+19) == alLSib() && le64(b,p+27) == alRSib() && le32(b,p+35) == alCnt() }
+//@ spec pred leafOffs(b *bytes.Buffer, p int, m int) { forall i int :: 0 <= i && i < m ==> le16(b, p+39+2*i) == alOff(i) }
+//@ spec pred leafCellsAt(b *bytes.Buffer, c int, m int) { forall i int :: 0 <= i && i < m ==>
+//@        le32(b, c+alPos(i)) == alKey(i) && bufdata(b, c+alPos(i)+4) == (alDel(i) ? 1 : 0) && le32(b, c+alPos(i)+5) == alSize(i) &&
+//@        (forall k int :: 0 <= k && k < alSize(i) ==> bufdata(b, c+alPos(i)+9+k) == alVal(i,k)) }
+//@ spec pred leafImage(b *bytes.Buffer, p int) { leafHdr(b,p) && leafOffs(b,p,alCnt()) && le16(b, p+39+2*alCnt()) == alFree() && leafCellsAt(b, p+4096-alPos(alCnt()), alCnt()) }
+
+//@ func (n *btreeNode) encodeLeaf() (*bytes.Buffer, error)
+//@   props C12
+//@   requires slotsOK(n) && n.isLeaf && cnt(n) <= maxLeaf && sizesOK(n) && (forall i int :: 0 <= i && i < cnt(n) ==> len(lc(n,i).valueBytes) <= maxValue)
+//@   ensures[total; C12] err == nil && result0 != nil && fresh(result0)
+//@   ensures[onepage; C12] bufr(result0) == 0 && bufw(result0) == 4096
+//@   ensures[image; C12] old(leafIs(n)) ==> leafImage(result0, 0)
+//@   loop 1 invariant 0 <= i && i <= cnt(n) && bufr(buf) == 0 && bufw(buf) == 39 + 2*i
+//@   loop 1 invariant[hdr] old(leafIs(n)) ==> leafHdr(buf,0) && leafOffs(buf,0,i)
+//@   loop 2 invariant 0 <= i && i <= cellCount && cellCount == cnt(n) && bufr(bufFooter) == 0 && 0 <= bufw(bufFooter) && bufw(bufFooter) <= 409*i && bufFooter != buf
+//@   loop 2 invariant bufr(buf) == 0 && bufw(buf) == 39 + 2*cnt(n)
+//@   loop 2 invariant[hdr] old(leafIs(n)) ==> leafHdr(buf,0) && leafOffs(buf,0,cnt(n))
+//@   loop 2 invariant[cells] old(leafIs(n)) ==> bufw(bufFooter) == alPos(i) && leafCellsAt(bufFooter, 0, i)
+
+//@ func (n *btreeNode) decodeLeaf(buf *bytes.Buffer) error
+//@   props C12
+//@   requires buf != nil && alWF() && len(n.offsets) == 0 && cap(n.offsets) == 0
+//@   requires bufw(buf) - bufr(buf) >= 4096 && leafImage(buf, bufr(buf))
+//@   modifies n.fileOffset, n.lastLSN, n.hasLSib, n.hasRSib, n.lSibFileOffset, n.rSibFileOffset, n.offsets, n.freeSize, n.leafCells, bufr(buf), bufver(buf)
+//@   ensures[total; C12] result == nil && bufr(buf) == old(bufr(buf)) + 4096
+//@   ensures[content; C12] leafIs(n)
+//@   ensures[shape; C12] len(n.leafCells) == alCnt() && (forall i int :: 0 <= i && i < alCnt() ==> lc(n,i) != nil)
+//@   loop 1 invariant 0 <= i && i <= cellCount && cellCount == alCnt() && len(n.offsets) == i && bufr(buf) == old(bufr(buf)) + 39 + 2*i && bufw(buf) == old(bufw(buf))
+//@   loop 1 invariant (i == 0 ? cap(n.offsets) == 0 : fresh(n.offsets))
+//@   loop 1 invariant forall j int :: 0 <= j && j < i ==> n.offsets[j] == alOff(j)
+//@   loop 1 invariant[hdr] n.fileOffset == alFileOffset() && n.lastLSN == alLSN() && n.hasLSib == alHasL() && n.hasRSib == alHasR() && n.lSibFileOffset == alLSib() && n.rSibFileOffset == alRSib()
+//@   loop 2 invariant 0 <= i && i <= cellCount && cellCount == alCnt() && len(n.offsets) == cellCount && len(n.leafCells) == cellCount && fresh(n.leafCells)
+//@   loop 2 invariant bufr(buf) == old(bufr(buf)) + 4096 - alPos(alCnt()) + alPos(i) && bufw(buf) == old(bufw(buf))
+//@   loop 2 invariant forall j int :: 0 <= j && j < cellCount ==> n.offsets[j] == alOff(j)
+//@   loop 2 invariant[cells] forall j int :: 0 <= j && j < i ==> allocated(n.leafCells[alOff(j)]) && n.leafCells[alOff(j)].key == alKey(j) && n.leafCells[alOff(j)].deleted == alDel(j) &&
+//@              n.leafCells[alOff(j)].valueSize == alSize(j) && len(n.leafCells[alOff(j)].valueBytes) == alSize(j) && allocated(n.leafCells[alOff(j)].valueBytes) &&
+//@              (forall k int :: 0 <= k && k < alSize(j) ==> n.leafCells[alOff(j)].valueBytes[k] == alVal(j,k))
+//@   loop 2 invariant[hdr] n.fileOffset == alFileOffset() && n.lastLSN == alLSN() && n.hasLSib == alHasL() && n.hasRSib == alHasR() && n.lSibFileOffset == alLSib() && n.rSibFileOffset == alRSib()
